@@ -48,7 +48,12 @@ func RunCLI(args ...string) (exit int, out string) {
 }
 
 // BboltBin is the path of the CLI binary built by ./run from the current tree.
-func BboltBin() string { return filepath.Join(evid.Root(), "bin", "bbolt") }
+func BboltBin() string {
+	if b := os.Getenv("VERIF_BIN"); b != "" {
+		return filepath.Join(b, "bbolt")
+	}
+	return filepath.Join(evid.Root(), "bin", "bbolt")
+}
 
 // RunCLIBinary runs the built binary and returns its exit status.
 func RunCLIBinary(args ...string) (int, string) {
